@@ -140,6 +140,7 @@ func (q *SelectLabelType) checkTypeLabels(labelledTypesEnv LabelledTypesEnv) err
 		if exists {
 			return fmt.Errorf("duplicate label '%s' found in type '%s'", j.Label, q.String())
 		}
+		existingLabels[j.Label] = true
 
 		// Checking inside the branch
 		err := j.SessionType.checkTypeLabels(labelledTypesEnv)
@@ -161,6 +162,7 @@ func (q *BranchCaseType) checkTypeLabels(labelledTypesEnv LabelledTypesEnv) erro
 		if exists {
 			return fmt.Errorf("duplicate label '%s' found in type '%s'", j.Label, q.String())
 		}
+		existingLabels[j.Label] = true
 
 		// Checking inside the branch
 		err := j.SessionType.checkTypeLabels(labelledTypesEnv)
